@@ -1461,6 +1461,12 @@ func (c *fnCtx) rangeStmt(v *ast.RangeStmt, k func() term) term {
 	if xv := c.plainVar(v.X); xv != nil && xv.typ.k == "map" {
 		return c.rangeMap(v, xv.typ, k)
 	}
+	{
+		var spre []fnBind
+		if rw := c.seqRange(v, &spre); rw != nil {
+			return wrap(spre, c.rangeStmt(rw, k))
+		}
+	}
 	var pre []fnBind
 	ls := &loopSpec{node: v, body: v.Body}
 	// the counter
